@@ -108,6 +108,7 @@ type Env struct {
 	hmaps     map[*Cell]*MapV
 	files     map[string][]*Term
 	shortWriteUsed bool
+	mapRangeSeen   bool // a map with >= 2 live entries was iterated without exploring its order
 	randUsed       bool
 }
 
